@@ -83,6 +83,8 @@ let run_init c =
   { !s with ths = List.map (fun (t, ops) -> (nat_of_int t, { prog = List.map parse_op ops; tpc = Idle; results = [] })) c.progs }
 
 let gibad = ref 0
+let pcbad = ref 0
+let gisteps = ref 0
 let check_gi = Array.length Sys.argv > 4 && Sys.argv.(4) = "gi"
 let () =
   let cases = Hashtbl.create 64 in
@@ -143,7 +145,10 @@ let () =
             | EScanEnd -> "end") evs in
           let ev = if ev = [] then "-" else String.concat "," ev in
           let en = String.concat "," (List.filter_map (fun t -> if c_enabled c.order st' (nat_of_int t) then Some (string_of_int t) else None) (tids c)) in
+          let check_gi = check_gi && int_of_nat c.order >= 4 in
+          if check_gi then incr gisteps;
           if check_gi && not (c_gi_full_b c.order st') then incr gibad;
+          if check_gi && not (c_all_pc_ok_b c.order st') then (incr pcbad; if !pcbad <= 3 then Printf.printf "PCBAD case %s after step of %d: %s\n" c.id w (state st' (tids c)));
           if c.dumpsteps then Printf.fprintf oc "STEP %d acq=%s ev=%s en=%s | %s\n" w a ev en (state st' (tids c))
           else Printf.fprintf oc "STEP %d acq=%s ev=%s en=%s\n" w a ev en
         | Blocked -> dead := true; Printf.fprintf oc "STEP %d MODEL-BLOCKED\n" w
@@ -172,4 +177,4 @@ let () =
     | _ -> ()
   done with End_of_file -> ());
   close_out oc;
-  Printf.printf "model_gi_failures %d\n" !gibad
+  Printf.printf "model_ci_steps %d model_gi_failures %d model_pc_failures %d\n" !gisteps !gibad !pcbad
